@@ -8,12 +8,15 @@ def run(ctx, res):
         return
     e3.apply(ctx, res, "C04", floor=6)
     structural.c04(ctx, res)
+    # keys that were drained must not come back: a `&mut`-holding draining iterator has to detach in its constructor (C17's rule)
+    structural.c17(ctx, res)
     # shared necessary conditions: a rejected insertion must not have removed the old value (C10 atomicity); the duplicate leaves
     # before anything is evicted (C03); reallocation keeps every entry (C13 transparency)
     d = e3.run(ctx)
     for rec in d["records"]:
         if (rec["prop"] == "C10" and rec["key"].endswith(":atomic")) or (rec["prop"] == "C03" and "dedupe-before-eviction" in rec["key"]) or \
-                (rec["prop"] == "C13" and rec["key"].endswith(":transparent")):
+                (rec["prop"] == "C13" and rec["key"].endswith(":transparent")) or \
+                (rec["prop"] in ("C03", "C11") and rec["key"].startswith("mutate:")):
             res.count("C04 shared E3 obligations")
             res.oblige(rec["desc"], rec["ok"], detail=rec.get("detail"), key="C04.E3:%s" % rec["key"], loc=rec["loc"],
                        rule="E3 abstract interpretation", msg="not proved: %s" % rec["desc"])
